@@ -106,13 +106,16 @@ def gated_call(index, target, args, kwargs, gate, rec):
 
 
 @contextlib.contextmanager
-def forced_order(stage, order, mode='entry', timeout=30):
+def forced_order(stage, order, mode='entry', timeout=30, observe=None):
     assert mode in ('entry', 'exit')
     pipes = [os.pipe() for _ in order]
     gate = {'order': list(order), 'mode': mode, 'pipes': pipes,
             'timeout': timeout}
+    plan = {'gate': gate}
+    if observe is not None:
+        plan['observe'] = observe
     try:
-        with faults.instrument(stage, {'gate': gate}) as rec:
+        with faults.instrument(stage, plan) as rec:
             yield rec
     finally:
         for r, w in pipes:
